@@ -67,30 +67,30 @@ CLAIMS["C06"] = dict(
 CLAIMS["C09"] = dict(
   level="other",
   technique="static analysis: effect reachability (navigation commands vs history writers), sibling agreement of GetLine bounds guards, error-guard facts at call sites, backward value slices into Line.Set",
-  text="Sufficient for 'never modifies them': no navigation/search command can reach a history writer. Decides that every GetLine implementation is total and every call site checks the error before using the line, that the buffer only ever receives stored entries or saved states, and that Walk saves/restores the in-progress text. Order of entries and matching semantics are not decided.",
+  text="Sufficient for 'never modifies them': no navigation/search command can reach a history writer. Decides that every GetLine implementation is total and every call site checks the error before using the line, that the buffer only ever receives stored entries or saved states, and that Walk saves/restores the in-progress text. Order of entries and matching semantics are not decided. Also: a search text that does not compile is still given a matcher before the candidates are filtered; end-of-history walks past the newest entry; after a search-mode switch the cursor is not moved through stale pointers.",
   ref="§5 C09")
 
 CLAIMS["C16"] = dict(
   level="other",
   technique="static analysis: per-command idiom classification of what Buffers.Write stores (value slices, same-SSA-bounds pairing with Line.Cut, loop accumulation order), must-pass-through, ring-slot constant agreement",
-  text="Decides for each named kill command that what is stored is structurally what is removed (four accepted idioms), that every removing path records, that Selection.Cut reads before it mutates, that yank/put insert only the active buffer and that Write and Active use the same ring slot. Text equality after kill+yank for all buffers is not decided.",
+  text="Decides for each named kill command that what is stored is structurally what is removed (four accepted idioms), that every removing path records, that Selection.Cut reads before it mutates, that yank/put insert only the active buffer and that Write and Active use the same ring slot. Text equality after kill+yank for all buffers is not decided. Also: vi-delete cuts only while the cursor is before the end of the line; Line.Insert never keeps the slice it was given (the kill buffer).",
   ref="§5 C16")
 CLAIMS["C17"] = dict(
   level="other",
   technique="static analysis: sibling cross-check of the vi operators on go/ssa (guard facts per branch, must-pass-through, shape of the range expression), effect reachability for yank, table agreement of the adjustment list",
-  text="Decides that delete/yank/change follow one operator protocol (same adjustment before the read, same range expression over one Selection.Pos() call, same line-wise rule), that yank cannot write the buffer, the pending-operator protocol in execute/Pending/RunPending, and that the adjustment table names registered commands. Which range each motion marks is not decided.",
+  text="Decides that delete/yank/change follow one operator protocol (same adjustment before the read, same range expression over one Selection.Pos() call, same line-wise rule), that yank cannot write the buffer, the pending-operator protocol in execute/Pending/RunPending, and that the adjustment table names registered commands. Which range each motion marks is not decided. Also: checkRange never turns a given end into -1; every doubled-operator branch cancels the pending operator (sibling agreement); the suggested history line is not taken as an operator's motion.",
   ref="§5 C17")
 
 CLAIMS["C14"] = dict(
   level="other",
   technique="static analysis: receiver/only-writer checks on the virtual line, shape and ordering of the Move/Cut/InsertAt triple (sibling agreement), guard facts in abort, must-pass-through in the main loop",
-  text="Decides that candidate insertion edits only a fresh copy of the line, that both insertion paths replace exactly [pos-len(prefix), pos) by the prepared candidate, that cancelling restores the virtual line from the real one, that abort only cancels while a completion is active, and that UpdateInserted separates the two keymap dispatches. Unit correctness of len(prefix) and text equality are not decided here (unit findings are reported separately).",
+  text="Decides that candidate insertion edits only a fresh copy of the line, that both insertion paths replace exactly [pos-len(prefix), pos) by the prepared candidate, that cancelling restores the virtual line from the real one, that abort only cancels while a completion is active, and that UpdateInserted separates the two keymap dispatches. Unit correctness of len(prefix) and text equality are not decided here (unit findings are reported separately). Also: the prefix is looked up from Pos()-1 unclamped; abort does not return while the menu-select keymap is active; Select enters the menu keymap before the selector moves.",
   ref="§5 C14")
 
 CLAIMS["C01"] = dict(
   level="other",
-  technique="static analysis: whole-module inventories over go/ssa and the VTA call graph — loop termination variants (P1–P5 + reviewed table with re-checked conditions), call-graph SCCs, explicit panics, nil-contradiction and nil-call guards, divisor guards, input-buffer length guards, read-error propagation, channel-send protocol; zone-domain abstract interpretation (difference constraints, contracts, state getters, class invariants, effect summaries over the call graph) proving every index and slice bound of the commands and editing primitives non-negative",
-  text="Decides necessary conditions of 'never crashes, spins or deadlocks' for every function reachable from Readline, the commands and the exported API: each loop has a termination variant or a reviewed ranking argument, each recursion a checked bound, no explicit panic, no unguarded nil call / nil dereference after a nil comparison / variable division / input-buffer index, read errors leave the wait loop and reach the caller, sends cannot block in the sequential flow (the cursor-report hand-off is a known finding); no index or slice bound in the root package and internal/core can be negative (784 obligations, proved by the bounds prover or listed with a reviewed reason). Upper bounds and lo <= hi of those sites, and the other packages' sites, are not decided.",
+  technique="static analysis: whole-module inventories over go/ssa and the VTA call graph — loop termination variants (P1–P5 + reviewed table with re-checked conditions), call-graph SCCs, explicit panics, nil-contradiction and nil-call guards, divisor guards, input-buffer length guards, read-error propagation, channel-send protocol; zone-domain abstract interpretation (difference constraints, contracts, state getters, class invariants, effect summaries over the call graph) proving every index and slice bound of the commands and editing primitives non-negative; the same prover on every package but inputrc (C12) and the completion menu grid, with the upper bound and ordering clauses, heap length terms for the shared line, and a self-test of the engine on synthetic unsafe functions; who-may-write / budget rules for the fed-key queue and the active history source",
+  text="Decides necessary conditions of 'never crashes, spins or deadlocks' for every function reachable from Readline, the commands and the exported API: each loop has a termination variant or a reviewed ranking argument, each recursion a checked bound, no explicit panic, no unguarded nil call / nil dereference after a nil comparison / variable division / input-buffer index, read errors leave the wait loop and reach the caller, sends cannot block in the sequential flow (the cursor-report hand-off is a known finding); every index and slice bound of the module outside inputrc (proved under C12) and the completion menu grid is in range — non-negative, below the length, ordered — proved by the bounds prover or listed with a reviewed reason (about 2 300 obligations); a macro that runs itself is cut off (feed budget), the numeric argument is capped (postcondition of Iterations.Get), the index of the active history source stays in range, a possibly-nil command is never called. Not decided: the completion menu grid (the C15 problem), panics inside application callbacks.",
   ref="§5 C01, §13")
 
 CLAIMS["C05"] = dict(
@@ -107,7 +107,7 @@ CLAIMS["C02"] = dict(
 CLAIMS["C04"] = dict(
   level="other",
   technique="static analysis: byte/rune/column unit analysis over every function of the redisplay path, recompute-before-paint and clear-after-newline ordering (must-pass-through), only-writer check of the coordinate fields, agreement of the tab-expansion constants of the printing and measuring functions",
-  text="Decides that coordinates are recomputed before every use in Refresh/AcceptLine, that only computeCoordinates writes them, that no byte count is used as a rune index or as a column count anywhere on the display path (which is what misplaces the cursor or leaves remnants for multi-byte / double-width text), that a tab is measured as the same blanks it is printed as, and that the row entered when a line fills the width exactly is cleared. The painted grid itself needs a terminal model and is not decided.",
+  text="Decides that coordinates are recomputed before every use in Refresh/AcceptLine, that only computeCoordinates writes them, that no byte count is used as a rune index or as a column count anywhere on the display path (which is what misplaces the cursor or leaves remnants for multi-byte / double-width text), that a tab is measured as the same blanks it is printed as, and that the row entered when a line fills the width exactly is cleared. The painted grid itself needs a terminal model and is not decided. Round 5 added the conditions found with a terminal emulator in triage: no clear-to-end-of-row after a full row, the full-row test depends on more than lineCol, LineSpan does not divide a width that depends on the text, the multiline column always comes back down, hint lines are counted one row each, LastUsed is the prompt width, each printed line went through ClearWrapped. Multi-line buffers with wrapped or exactly full lines, and the secondary prompt's row, are NOT decided (known deviations, DESIGN §11).",
   ref="§5 C04")
 CLAIMS["C20"] = dict(
   level="other",
